@@ -71,3 +71,22 @@ def replay_operator(result, tier, seed, smt2):
     if op in UNARY_OPS:
         return R.operator_replay(op, smt2, result.get('model'), binary=False)
     return None
+
+
+def replay_any(result, tier, seed, smt2):
+    """Replay of a refuted obligation: generic-element (polynomial) obligations carry a `replay_case` (operator, signature,
+    stored blades of the failing shape) that is run natively on random rational coefficients; solver obligations of the
+    codegen_<op> contracts go through the model-directed replay."""
+    case = (result.get('meta') or {}).get('replay_case')
+    if case:
+        from kvc import nativerun
+        job = {'kind': 'gcase', 'module': 'standins.jobs7', 'config': {'signature': case['signature']} if case['signature'] else {'p': 0},
+               'op': case['op'], 'x_keys': case['x_keys'], 'seed': seed}
+        if case.get('y_keys') is not None:
+            job['y_keys'] = case['y_keys']
+        r = nativerun.run_jobs([job], timeout=600)[0]
+        if r.get('status') == 'ok' and r.get('failures'):
+            return {'failing_input': r['failures'][0], 'replay_case': case}
+        return {'note': 'no failing input in the directed native runs of the failing shape', 'replay_case': case,
+                'native': {k: r.get(k) for k in ('status', 'evaluations', 'note', 'error') if k in r}}
+    return replay_operator(result, tier, seed, smt2)
